@@ -268,7 +268,7 @@ def _check_gate(run: Run, ctx, m) -> None:
             run.fail("C13.R3", vc, n, "an early return precedes the gate's test")
     # the legal table
     mod = m.module("func_adl.util_ast")
-    tbl = mod.assigns.get("g_legal_capture_types")
+    tbl = m.find_assign("g_legal_capture_types", mod.name)
     if not isinstance(tbl, ast.Tuple):
         raise AnalysisError("g_legal_capture_types is not a tuple literal")
     names = [ast.unparse(e) for e in tbl.elts]
